@@ -124,6 +124,9 @@ func descSteps(steps []Step) []string {
 			if s.Same > 0 {
 				out[j] += fmt.Sprintf(" (identity of %d again)", s.Same-(map[bool]int{true: 1, false: 0})[s.Op == opMeter])
 			}
+			if s.Alt > 0 {
+				out[j] += fmt.Sprintf(" (identity of %d but different instrumentation attributes)", s.Alt-(map[bool]int{true: 1, false: 0})[s.Op == opMeter])
+			}
 			if s.Opt {
 				out[j] += " +version/schema/attributes"
 			}
